@@ -18,10 +18,10 @@ def run(ctx):
     ctx.extra["model_histories"] = len(hists)
     # only maximal histories are run (their prefixes are exercised on the way); writes get varied option sets
     maximal = [h for h in hists if len(h) >= 2]
-    limit = None if thorough else 1500
-    if limit and len(maximal) > limit:
+    limit = 40000 if thorough else 1500
+    ctx.exhaustive = len(maximal) <= limit
+    if len(maximal) > limit:
         maximal = rng.sample(maximal, limit)
-    ctx.exhaustive = limit is None or len(hists) <= limit
     traces, meta = [], []
     extra_opts = sorted(writefx.OPTS)
     for h in maximal:
